@@ -751,6 +751,46 @@ pub fn run() {
     }
   }
   corrupted.par_iter().for_each(|(k, t)| check_literal(&run, &cnt, *k, t, "corruption"));
+  // duration components beyond what a component can hold: the literal denotes its written value or nothing - never the value
+  // of the literal with that component left out or wrapped around
+  {
+    let scope = Scope::default();
+    let mut n_big = 0u64;
+    for big in ["18446744073709551616", "100000000000000000000", "1000000000000000000000000000000", "18446744073709551615", "9223372036854775808"] {
+      for (with, without) in [
+        (format!("P{}DT1H", big), "PT1H".to_string()),
+        (format!("P1DT{}H", big), "P1D".to_string()),
+        (format!("PT{}H1M", big), "PT1M".to_string()),
+        (format!("PT1H{}M", big), "PT1H".to_string()),
+        (format!("PT{}M1S", big), "PT1S".to_string()),
+        (format!("PT1M{}S", big), "PT1M".to_string()),
+        (format!("-P{}DT1H", big), "-PT1H".to_string()),
+        (format!("P{}Y1M", big), "P1M".to_string()),
+        (format!("P1Y{}M", big), "P1Y".to_string()),
+        (format!("-P{}Y1M", big), "-P1M".to_string()),
+      ] {
+        n_big += 1;
+        cnt.literals.fetch_add(1, Ordering::Relaxed);
+        for (path, text) in [("function", format!("duration(\"{}\")", with)), ("at-literal", format!("@\"{}\"", with))] {
+          cnt.observations.fetch_add(1, Ordering::Relaxed);
+          let v = eval_with(&scope, &text);
+          if matches!(v, Value::Null(_)) {
+            continue;
+          }
+          let dropped = eval_with(&scope, &format!("duration(\"{}\")", without));
+          let small = eval_with(&scope, &format!("abs(duration(\"{}\")) < duration(\"P1000D\") or abs(duration(\"{}\")) < duration(\"P1000Y\")", with, with));
+          if v.to_string() == dropped.to_string() || matches!(small, Value::Boolean(true)) {
+            run.violation(
+              &format!("duration-component-beyond-its-limit:{}:{}", if with.contains('Y') || (with.contains('M') && !with.contains('T')) { "years-and-months" } else { "days-and-time" }, path),
+              &format!("`{}` evaluates to {}: the component {} is neither honoured nor rejected", text, v, big),
+              json!({"engine":"c14","text":text,"expected":"null"}),
+            );
+          }
+        }
+      }
+    }
+    run.set("oversized_duration_components", json!(n_big));
+  }
   run.sample(json!({"kind":"time","literal":"08:15:00-00:30","canonical":"08:15:00-00:30","checks":["accepted through function, @-literal, TryFrom, xsd input","prints canonically","components","string(v) reads back equal"]}));
   run.sample(json!({"kind":"days-and-time-duration","literal":"PT36H","canonical":"P1DT12H"}));
   run.sample(json!({"kind":"date","literal":"2021-02-29","expected":"null"}));
@@ -767,7 +807,7 @@ pub fn run() {
   run.set("unspecified_literals", json!(cnt.unspec.load(Ordering::Relaxed)));
   run.set("zone_identifiers", json!(zones.len()));
   run.set("corrupted_literals", json!(corrupted.len()));
-  run.assume("the reference literal grammar and printer in reftime.rs (proleptic Gregorian calendar, hour < 24, minute/second < 60, offset hour <= 14, at most nine fraction digits) state the property; year 0000, offset minutes above 59 and more than nine fraction digits are left unspecified");
+  run.assume("the reference literal grammar and printer in reftime.rs (proleptic Gregorian calendar, hour < 24, minute/second < 60, offset hour <= 14, offset minute / second < 60, at most nine fraction digits) state the property; year 0000 and more than nine fraction digits are left unspecified");
   run.assume("times of day in named zones depend on today's date and are only checked for acceptance and printing");
   run.finish();
 }
